@@ -106,6 +106,7 @@ fn execute(sc: &Scenario, acc: &mut Acc) -> Result<Vec<Violation>, String> {
         }
         let all: Vec<String> = full_paths.iter().map(|(p, _)| p.clone()).collect();
         let dirs: Vec<String> = full_entries.iter().filter(|e| format!("{:?}", e.kind) == "Dir").map(|e| e.apath.to_string()).collect();
+        let listing_links: Vec<String> = full_entries.iter().filter(|e| format!("{:?}", e.kind) == "Symlink").map(|e| e.apath.to_string()).collect();
         // subtrees to list: every entry, plus non-existent siblings and prefixes
         let mut subs: Vec<String> = all.clone();
         for p in all.iter().take(6) {
@@ -169,8 +170,16 @@ fn execute(sc: &Scenario, acc: &mut Acc) -> Result<Vec<Violation>, String> {
         // restore of subtrees: every directory of the version (only when the full restore is clean)
         let fr = w.restore(&RestoreSpec { band: Some(*id), ..Default::default() });
         acc.calls += 1;
-        if !fr.clean() {
-            continue; // C02/C03 judge full restores
+        // C02/C03 judge full restores. When the full restore reported errors (orphans of a
+        // stitched interrupted version, entries below a restored symlink) the comparison is
+        // still made for every subtree whose own restore is clean: what selecting S restores
+        // without complaint, the full restore must hold too.
+        let full_clean = fr.clean();
+        if !full_clean && !matches!(fr.outcome, Outcome::Done(Ok(()))) {
+            continue;
+        }
+        if !full_clean {
+            acc.hit("full_restore_with_errors_compared");
         }
         let mut rdirs = dirs.clone();
         if rdirs.len() > 8 {
@@ -184,6 +193,9 @@ fn execute(sc: &Scenario, acc: &mut Acc) -> Result<Vec<Violation>, String> {
             }
             let rr = w.restore(&RestoreSpec { band: Some(*id), subtree: Some(s.clone()), ..Default::default() });
             acc.calls += 1;
+            if !full_clean && (!matches!(rr.outcome, Outcome::Done(Ok(()))) || !rr.errors.is_empty()) {
+                continue;
+            }
             if !matches!(rr.outcome, Outcome::Done(Ok(()))) || !rr.errors.is_empty() {
                 out.push(Violation::new(
                     prop,
@@ -211,7 +223,13 @@ fn execute(sc: &Scenario, acc: &mut Acc) -> Result<Vec<Violation>, String> {
             for (p, n) in &rr.snap {
                 if ref_is_ancestor_or_self(s, p) {
                     if !fr.snap.contains_key(p) {
-                        out.push(Violation::new(prop, "subtree_restore_equals_full_restore", "extra_inside", format!("b{id:04} only_subtree {s:?}: {p:?} restored but not in the full restore")));
+                        // the full restore rightly refuses what lies below a symlink it restored
+                        let below_link = listing_links.iter().any(|l| l != p && ref_is_ancestor_or_self(l, p));
+                        if full_clean {
+                            out.push(Violation::new(prop, "subtree_restore_equals_full_restore", "extra_inside", format!("b{id:04} only_subtree {s:?}: {p:?} restored but not in the full restore")));
+                        } else if !below_link && all.contains(p) {
+                            out.push(Violation::new(prop, "subtree_restore_equals_full_restore", "full_restore_lacks_it", format!("b{id:04} only_subtree {s:?}: {p:?} is restored when the subtree is selected but the full restore (which reported errors) does not hold it")));
+                        }
                     }
                 } else if !(ref_is_ancestor_or_self(p, s) && n.kind == 'd') {
                     out.push(Violation::new(prop, "subtree_restore_nothing_outside", format!("outside:{}", if s.is_ascii() { "ascii" } else { "multibyte" }), format!("b{id:04} only_subtree {s:?}: {p:?} lies outside the subtree and is not one of its parents")));
